@@ -496,39 +496,59 @@ func ruleXTotal(w *World, r *Report) {
 	}
 	for _, fn := range fns {
 		r.FuncsAnalysed[fnName(fn)] = true
-		for _, b := range fn.Blocks {
-			ret, ok := normalReturn(b)
-			if !ok {
-				continue
-			}
+		perRet := w.xTotalPerReturn(fn)
+		for _, pr := range perRet {
 			key := fn.Name() + ":return"
-			pos := w.instrPos(ret)
-			var nils []string
-			judged := 0
-			for _, pr := range w.resultPairs(fn, ret) {
-				errNil, _ := w.mayBeNilError(fn, pr.e, pr.blk)
-				if !errNil {
-					continue
-				}
-				judged++
-				// (q, err) are the two results of one builder call: q != nil when err == nil is that callee's obligation
-				if qe, ok := strip(pr.q).(*ssa.Extract); ok {
-					if ee, ok := strip(pr.e).(*ssa.Extract); ok && qe.Tuple == ee.Tuple && qe.Index == 0 {
-						continue
-					}
-				}
-				nils = append(nils, w.nilSources(fn, pr.q, pr.blk, map[ssa.Value]bool{}, 0)...)
-			}
-			if judged == 0 {
-				continue
-			}
-			if len(nils) == 0 {
-				r.ok("X-TOTAL", key, pos, "query result is non-nil whenever the error is nil")
+			if len(pr.nils) == 0 {
+				r.ok("X-TOTAL", key, w.instrPos(pr.ret), "query result is non-nil whenever the error is nil")
 			} else {
-				r.bad("X-TOTAL", key, pos, fmt.Sprintf("%s can return a nil query with a nil error: %s — the expression compiles and the nil query is dereferenced at run time", fn.Name(), strings.Join(dedup(nils), "; ")))
+				r.bad("X-TOTAL", key, w.instrPos(pr.ret), fmt.Sprintf("%s can return a nil query with a nil error: %s — the expression compiles and the nil query is dereferenced at run time", fn.Name(), strings.Join(dedup(pr.nils), "; ")))
 			}
 		}
 	}
+}
+
+type xtRet struct {
+	ret  *ssa.Return
+	nils []string
+}
+
+func (w *World) xTotalPerReturn(fn *ssa.Function) []xtRet {
+	var out []xtRet
+	for _, b := range fn.Blocks {
+		ret, ok := normalReturn(b)
+		if !ok || len(ret.Results) != 2 {
+			continue
+		}
+		var nils []string
+		judged := 0
+		for _, pr := range w.resultPairs(fn, ret) {
+			errNil, _ := w.mayBeNilError(fn, pr.e, pr.blk)
+			if !errNil {
+				continue
+			}
+			judged++
+			if qe, ok := strip(pr.q).(*ssa.Extract); ok {
+				if ee, ok := strip(pr.e).(*ssa.Extract); ok && qe.Tuple == ee.Tuple && qe.Index == 0 {
+					continue
+				}
+			}
+			nils = append(nils, w.nilSources(fn, pr.q, pr.blk, map[ssa.Value]bool{}, 0)...)
+		}
+		if judged == 0 {
+			continue
+		}
+		out = append(out, xtRet{ret, nils})
+	}
+	return out
+}
+
+func (w *World) xTotalNils(fn *ssa.Function) []string {
+	var all []string
+	for _, pr := range w.xTotalPerReturn(fn) {
+		all = append(all, pr.nils...)
+	}
+	return all
 }
 
 type resPair struct {
